@@ -239,6 +239,13 @@ pub enum Outcome {
     Err { kind: ErrKind, msg: String },
     Panic { msg: String },
     NoProgress { reads: u64 },
+    /// A no-limit entry point (which never polls the simulated clock) did not return within
+    /// the wall-clock watchdog although its limit-taking twin terminated at once. Last
+    /// resort against changes that make such a call spin; never produced on a tree where
+    /// the property holds.
+    Hung { secs: u64 },
+    /// Not executed because too many calls of this process already hang.
+    NotRun,
 }
 
 impl Outcome {
@@ -248,6 +255,8 @@ impl Outcome {
             Outcome::Err { kind, .. } => format!("Err({kind:?})"),
             Outcome::Panic { .. } => "Panic".into(),
             Outcome::NoProgress { .. } => "NoProgress".into(),
+            Outcome::Hung { .. } => "Hung".into(),
+            Outcome::NotRun => "NotRun".into(),
         }
     }
     /// Bit-exact fingerprint, for clock-independence and determinism comparisons.
@@ -266,6 +275,8 @@ impl Outcome {
             Outcome::Err { kind, msg } => format!("Err|{kind:?}|{msg}"),
             Outcome::Panic { msg } => format!("Panic|{msg}"),
             Outcome::NoProgress { reads } => format!("NoProgress|{reads}"),
+            Outcome::Hung { secs } => format!("Hung|{secs}"),
+            Outcome::NotRun => "NotRun".to_string(),
         }
     }
 }
@@ -540,8 +551,54 @@ fn call(m: &GenModel, cfg: &RunCfg) -> Outcome {
     }
 }
 
+/// Wall-clock watchdog for the entry points whose loops never poll the simulated clock.
+pub const WATCHDOG_SECS: u64 = 10;
+const MAX_HUNG_THREADS: usize = 12;
+static HUNG_THREADS: std::sync::atomic::AtomicUsize = std::sync::atomic::AtomicUsize::new(0);
+
 /// One simulated run. A pure function of (`m`, `cfg`, the code under test).
+///
+/// Entry points that take a limit are bounded by the simulated clock's read budget. The
+/// no-limit microlp entry points are only ever called on models whose limit-taking twin
+/// terminated (same pivoting), and additionally run on a sacrificial thread under a
+/// wall-clock watchdog, so that a change to rooc which makes them spin ends as a verdict
+/// (`Hung`) instead of wedging the harness.
 pub fn run(m: &GenModel, cfg: &RunCfg) -> RunResult {
+    use std::sync::atomic::Ordering;
+    if cfg.entry.microlp_backed() && !cfg.entry.takes_options() {
+        if HUNG_THREADS.load(Ordering::Relaxed) >= MAX_HUNG_THREADS {
+            return RunResult {
+                outcome: Outcome::NotRun,
+                clock: clock::Report::default(),
+            };
+        }
+        let (tx, rx) = std::sync::mpsc::channel();
+        let (m2, cfg2) = (m.clone(), *cfg);
+        let spawned = std::thread::Builder::new()
+            .stack_size(8 << 20)
+            .spawn(move || {
+                let _ = tx.send(run_here(&m2, &cfg2));
+            });
+        if spawned.is_err() {
+            return run_here(m, cfg);
+        }
+        return match rx.recv_timeout(Duration::from_secs(WATCHDOG_SECS)) {
+            Ok(r) => r,
+            Err(_) => {
+                HUNG_THREADS.fetch_add(1, Ordering::Relaxed);
+                RunResult {
+                    outcome: Outcome::Hung {
+                        secs: WATCHDOG_SECS,
+                    },
+                    clock: clock::Report::default(),
+                }
+            }
+        };
+    }
+    run_here(m, cfg)
+}
+
+fn run_here(m: &GenModel, cfg: &RunCfg) -> RunResult {
     clock::install(cfg.sched.to_clock(), cfg.budget);
     let result = catch_unwind(AssertUnwindSafe(|| call(m, cfg)));
     let report = clock::uninstall();
